@@ -224,15 +224,12 @@ pub broadcast proof fn axiom_key_view_string(k: String) ensures #[trigger] key_v
 pub open spec fn hm_appended(hm: HMap, n: Seq<char>, v: http::header::HeaderValue) -> HMap {
     hm.insert(n, if hm.contains_key(n) { hm[n].push(v) } else { seq![v] })
 }
-// visible ASCII text (HeaderValue::to_str succeeds exactly on such values)
-pub open spec fn vis_char(c: char) -> bool { (32 <= (c as u32) && (c as u32) < 127) || c == '\t' }
-pub open spec fn vis(s: Seq<char>) -> bool { forall|i: int| 0 <= i < s.len() ==> vis_char(#[trigger] s[i]) }
 pub assume_specification<K, V> [http::request::Builder::header] (b: http::request::Builder, k: K, v: V) -> (r: http::request::Builder)
     where <http::HeaderName as std::convert::TryFrom<K>>::Error: std::convert::Into<http::Error>,
           <http::HeaderValue as std::convert::TryFrom<V>>::Error: std::convert::Into<http::Error>,
           http::HeaderName: std::convert::TryFrom<K>, http::HeaderValue: std::convert::TryFrom<V>,
     ensures builder_parts(r) matches Some(p2) ==> builder_parts(b) matches Some(p1) && parts_method(p2) == parts_method(p1) && parts_uri(p2) == parts_uri(p1)
-                && exists|val: http::header::HeaderValue| hv_view(val) == value_text(v) && (hv_visible_ascii(val) <==> vis(value_text(v)))
+                && exists|val: http::header::HeaderValue| hv_view(val) == value_text(v)
                     && #[trigger] hm_appended(hm_view(parts_headers(p1)), key_view(k), val) == hm_view(parts_headers(p2));
 // body: "Consumes this builder, using the provided body to return a constructed Request"; Err if the builder holds an error
 pub assume_specification<T> [http::request::Builder::body] (b: http::request::Builder, body: T) -> (r: std::result::Result<http::Request<T>, http::Error>)
@@ -241,41 +238,24 @@ pub assume_specification<T> [http::request::Builder::body] (b: http::request::Bu
 #[verifier::external_body] pub broadcast proof fn axiom_fmt_http_error() ensures #[trigger] vstd::std_specs::fmt::fmt_req_all::<http::Error>() {}
 #[verifier::external_body]
 pub broadcast proof fn axiom_into_bytes_vec(v: Vec<u8>) ensures #[trigger] into_bytes_view::<Vec<u8>>(v) == v@ {}      // Bytes::from(Vec<u8>)
-// Display for usize writes decimal digits
+
+// ---- header value bytes read as text (fix F6e: String::from_utf8_lossy(value.as_bytes())) ----
+pub uninterp spec fn hv_bytes(v: http::header::HeaderValue) -> Seq<u8>;          // HeaderValue::as_bytes
+pub uninterp spec fn utf8_lossy(b: Seq<u8>) -> Seq<char>;                        // String::from_utf8_lossy (invalid sequences -> U+FFFD)
+pub assume_specification [http::header::HeaderValue::as_bytes] (v: &http::header::HeaderValue) -> (r: &[u8])
+    ensures r@ == hv_bytes(*v);
+// a visible-ASCII value is valid UTF-8 and its lossy reading is its text (the &str HeaderValue::to_str yields); for other
+// values the text is unconstrained
 #[verifier::external_body]
-pub broadcast proof fn axiom_to_string_usize_vis(t: &usize, s: String)
-    ensures #[trigger] vstd::string::to_string_from_display_ensures::<usize>(t, s) ==> vis(s@) {}
-pub broadcast proof fn lemma_append_vis(hm: HMap, n: Seq<char>, v: http::header::HeaderValue)
-    requires all_values_visible_ascii(hm), hv_visible_ascii(v),
-    ensures all_values_visible_ascii(#[trigger] hm_appended(hm, n, v)),
-{
-    let h2 = hm_appended(hm, n, v);
-    assert forall|m: Seq<char>, i: int| h2.contains_key(m) && 0 <= i < h2[m].len() implies hv_visible_ascii(#[trigger] h2[m][i]) by {
-        if m == n { if hm.contains_key(n) { if i < hm[n].len() { assert(hv_visible_ascii(hm[n][i])); } } } else { assert(hv_visible_ascii(hm[m][i])); }
-    }
-}
-pub proof fn lemma_vis_concat(a: Seq<char>, b: Seq<char>)
-    requires vis(a), vis(b),
-    ensures vis(a + b),
-{
-    assert forall|i: int| 0 <= i < (a + b).len() implies vis_char(#[trigger] (a + b)[i]) by { if i < a.len() { assert(vis_char(a[i])); } else { assert(vis_char(b[i - a.len()])); } }
-}
-proof fn lits_claims()
-    ensures vis("{ \""@ + crate::common::constants::CLAIMS_IS_ROOT@ + "\": \""@ + bool_text(true) + "\"}"@), vis("0"@),
-{
-    reveal_strlit("{ \""); reveal_strlit("isRoot"); reveal_strlit("\": \""); reveal_strlit("true"); reveal_strlit("\"}"); reveal_strlit("0");
-    assert("{ \""@.len() == 3); assert("isRoot"@.len() == 6); assert("\": \""@.len() == 4); assert("true"@.len() == 4); assert("\"}"@.len() == 2); assert("0"@.len() == 1);
-    assert(vis("{ \""@)); assert(vis("isRoot"@)); assert(vis("\": \""@)); assert(vis("true"@)); assert(vis("\"}"@));
-    lemma_vis_concat("{ \""@, "isRoot"@);
-    lemma_vis_concat("{ \""@ + "isRoot"@, "\": \""@);
-    lemma_vis_concat("{ \""@ + "isRoot"@ + "\": \""@, "true"@);
-    lemma_vis_concat("{ \""@ + "isRoot"@ + "\": \""@ + "true"@, "\"}"@);
-}
+pub broadcast proof fn axiom_hv_text_visible_ascii(v: http::header::HeaderValue)
+    requires hv_visible_ascii(v),
+    ensures #[trigger] utf8_lossy(hv_bytes(v)) == hv_view(v) {}
 pub assume_specification [http::StatusCode::is_success] (s: &http::StatusCode) -> (r: bool)
     ensures r == (200 <= status_code(*s) < 300);
-proof fn lits_site_headers()
-    ensures vis("2012-11-30"@), vis("true"@), vis("True "@),
-{
-    reveal_strlit("2012-11-30"); reveal_strlit("true"); reveal_strlit("True ");
-    assert("2012-11-30"@.len() == 10); assert("true"@.len() == 4); assert("True "@.len() == 5);
-}
+pub uninterp spec fn cow_text(c: std::borrow::Cow<'_, str>) -> Seq<char>;       // the str a Cow<str> holds (borrowed or owned)
+// String::from_utf8_lossy: "Converts a slice of bytes to a string, including invalid characters" (never fails)
+pub assume_specification [std::string::String::from_utf8_lossy] (v: &[u8]) -> (r: std::borrow::Cow<'_, str>)
+    ensures cow_text(r) == utf8_lossy(v@);
+#[verifier::external_body]
+pub broadcast proof fn axiom_to_string_cow(t: &std::borrow::Cow<'_, str>, s: String)
+    ensures #[trigger] vstd::string::to_string_from_display_ensures::<std::borrow::Cow<'_, str>>(t, s) <==> s@ == cow_text(*t) {}
